@@ -620,4 +620,36 @@ func c16PoolDiscipline(c *Ctx) {
 	if n == 0 {
 		r.Check("R16.6", "module", "no sync.Pool in use", 0, true, "")
 	}
+	// a package-level channel is a free list by another name: what one render sends, another receives
+	nch := 0
+	for _, fn := range c.LibFuncs() {
+		eachInstr(fn, func(in ssa.Instruction) {
+			var ch ssa.Value
+			switch x := in.(type) {
+			case *ssa.Send:
+				ch = x.Chan
+			case *ssa.UnOp:
+				if x.Op == token.ARROW {
+					ch = x.X
+				}
+			case *ssa.Select:
+				for _, st := range x.States {
+					if loadedGlobal(unwrap(st.Chan, true)) != nil {
+						ch = st.Chan
+					}
+				}
+			}
+			if ch == nil {
+				return
+			}
+			if g := loadedGlobal(unwrap(ch, true)); g != nil && inModule2(g) {
+				nch++
+				r.Check("R16.6", FuncName(fn), fmt.Sprintf("package-level channel %s is not used to pass objects between calls", g.Name()), in.Pos(), false,
+					"objects (buffers, say) handed from one render to the next through a package-level channel are shared state between independent tables: what one render left in them, or a second reference to one of them, shows up in another's output")
+			}
+		})
+	}
+	if nch == 0 {
+		r.Check("R16.6", "module", "no package-level channel carries objects between calls", 0, true, "")
+	}
 }
